@@ -9,7 +9,15 @@ def _fmm_objects():
 def _tree_objects():
     return [("h_tree_main.cpp", [], "main")] + [("h_tree_tu.cpp", ["VH_FL=%d" % f], "f%d" % f) for f in range(1, 11)]
 
+def _sched_objects(tsan):
+    objs = [("h_sched_main.cpp", [], "main"), ("rt/sched.cpp", [], "sched")]
+    for d, p in [(1, 0), (2, 0), (3, 0), (3, 1)]:
+        objs.append(("h_sched_tu.cpp", ["VH_DIM=%d" % d, "VH_PER=%d" % p, "VH_TSAN=%d" % tsan], "d%d_%d" % (d, p)))
+    return objs
+
 BINARIES = {
+    "h_sched": {"flavour": "asan", "objects": _sched_objects(0), "cflags": ["-fopenmp"], "ldflags": ["-lpthread"], "about": "OpenMP executors (plain and target/source) linked against the scheduler shim instead of libgomp; hostile schedules; O-dag, O-seq, P-rec; ASan+UBSan"},
+    "h_sched_tsan": {"flavour": "tsan", "objects": _sched_objects(1), "cflags": ["-fopenmp"], "ldflags": ["-lpthread"], "about": "same engine under ThreadSanitizer with wave policies (mutually unordered tasks released together)"},
     "h_fmm": {"flavour": "asan", "objects": _fmm_objects(), "about": "sequential executors + probe kernels on single trees, Dim 1..4, Morton and periodic Morton"},
     "h_tree": {"flavour": "asan", "objects": _tree_objects(), "about": "tree construction / structure / lookup / export / rebuild over 10 template flavours (Dim 1..4, float/double, data type != real type, 0..4 rhs, periodic ordering, target/source trees)"},
 }
@@ -107,6 +115,26 @@ CHECKS = {
         "jobs": [{"bin": "h_tree", "mode": "c17"}, {"bin": "h_tree", "mode": "c13"}],
         "rule": "cases = random trees over 10 flavours, a third with N <= 5 (fewer particles than values), exports checked after build, after execute (distinct result rows), after rebuild; every 4th case target/source trees; plus every rebuild cycle of C13. non-trivial = N >= 2; distinct = tree signature.",
         "require_events": ["export-entries-checked"],
+        "assumptions": [],
+    },
+    "C03": {
+        "level": EXPL,
+        "technique": "runtime monitoring under a controlled scheduler: OpenMP executors linked against a GOMP-ABI shim that records declared dependencies and runs every task under hostile legal schedules; offline O-dag checker (observed conflicting accesses vs declared graph), bit-exact comparison with the sequential executor, ASan (stack-use-after-return/scope) and TSan builds",
+        "claim": "For every explored tree and schedule (10 policies incl. full deferral, LIFO, random, priority-inverted, waves; 1..16 threads; random worker assignment) the OpenMP executors left the tree bit-identical to the sequential one; every pair of tasks observed to touch the same cell/leaf object with a writer was ordered by the declared dependencies (so every linear extension of the observed graphs is conflict-free); no task read a dead variable (ASan) and overlapping tasks showed no data race (TSan).",
+        "note": "Trusted: the shim's reading of the GOMP ABI (argument block copy, depend[] layout, priority) and of OpenMP task-dependence semantics; access sets are observed at cell/leaf granularity by the probe kernel. Specx/StarPU executors are not covered in this round (no mock runtime yet) - stated in DESIGN.md.",
+        "jobs": [{"bin": "h_sched", "mode": "c03"}, {"bin": "h_sched_tsan", "mode": "c03"}],
+        "rule": "case = one random tree (Dim 1..3, Morton and periodic Morton, heights up to 5..8, small block sizes so that many tasks exist) executed by TbfOpenmpAlgorithm under a set of schedules: quick = each of the 10 policies with a random thread count in {1,2,3,4,8,16} + single-thread full deferral + a 16-thread wave; thorough = every policy x every thread count; TSan build = wave policies on 2..16 threads. non-trivial = more than 3 tasks per schedule; distinct = tree signature. Evidence counts tasks, declared edges, conflicting pairs checked, distinct execution orders, max overlap.",
+        "require_events": ["schedules-executed", "tasks-executed", "dag-conflicting-pairs-checked", "distinct-execution-orders"],
+        "assumptions": ["task bodies are deterministic functions of the data they access (checked by observation: bit-identical results under all schedules)"],
+    },
+    "C09": {
+        "level": EXPL,
+        "technique": "runtime monitoring: exact probe kernels (per-source multiset, polynomial) on target/source trees against the coordinate model and the direct sum; OpenMP target/source executor under the scheduler shim with O-dag/O-seq/P-rec and ASan",
+        "claim": "On every explored pair of source/target sets each target accumulated exactly one contribution from each source (model count when periodic), nothing else; source multipoles and target locals equalled the model cell by cell; the OpenMP target/source executor gave bit-identical trees under all explored schedules with all observed conflicts ordered by declared dependencies.",
+        "note": "Sources carry no result storage and targets no multipoles by type (NbRhs=0 / void_data), which is observed by the recorder never being handed such an object.",
+        "jobs": [{"bin": "h_sched", "mode": "c09"}],
+        "rule": "case = independent source and target sets (independent / disjoint halves / identical positions / sources in one leaf / targets in one leaf / single source or target) x distributions x geometry x block sizes x both modes; OpenMP executor under the C03 schedule sets (h_sched). non-trivial = more than 3 tasks per schedule (h_sched) / at least one far or near leaf pair (h_fmm); distinct = configuration hash.",
+        "require_events": ["schedules-executed", "tasks-executed", "poly-results-checked"],
         "assumptions": [],
     },
 }
